@@ -50,7 +50,8 @@ class Explorer:
         self.max_decisions = max_decisions
         self.use_cvc5 = use_cvc5
         self.worklist = []
-        self.stats = {'paths': 0, 'infeasible': 0, 'branch_checks': 0, 'solver_s': 0.0, 'cvc5_calls': 0}
+        self.alt_unknown = set()      # prefixes of alternatives whose feasibility the solver could not decide
+        self.stats = {'paths': 0, 'infeasible': 0, 'branch_checks': 0, 'solver_s': 0.0, 'cvc5_calls': 0, 'unknown_branches': 0, 'branch_s': 0.0}
 
     def push_alternative(self, prefix):
         self.worklist.append(prefix)
@@ -116,6 +117,9 @@ class Explorer:
                 err = ('undecided', f'Z3Exception: {e}')
             except Exception as e:
                 err = ('crash', f'{type(e).__name__}: {e}\n' + traceback.format_exc())
+            if err is not None and err[0] == 'crash' and path.feas_unknown:
+                # an exception on a path that may not exist (a feasibility check timed out) is not an engine failure
+                err = ('undecided', 'exception on a path whose feasibility the solver could not decide: ' + err[1][:600])
             self.stats['paths'] += 1
             self.stats['branch_checks'] += path.n_branch_checks
             records.append((h, err))
@@ -163,6 +167,9 @@ class Harness:
 
     def _rand_str(self):
         r = self.rng
+        if r.random() < 0.3:
+            return r.choice(['1.5', '2.5', '-0.5', '.5', '1e3', '1E-2', '70000', '-32769', '3000000000', '1e39', '1e999', 'abc',
+                             ' 12 ', '"a,b"', '&H10', '1d3', '12abc', '-', '0', '-7', '3.4e38', '##.##', 'a b'])
         n = r.choice([0, 1, 1, 2, 3, 5, 8])
         return ''.join(r.choice(' ,"a1-.+eE\t0#') for _ in range(n))
 
